@@ -1,2 +1,373 @@
-use anyhow::{bail, Result};
-pub fn replay(_vecs: &str, _out: &str) -> Result<()> { bail!("todo") }
+//! C02: `abi::call` for every signature of MC_CallConv.tla in the five (variant, direction,
+//! async) combinations in-tree generators use.  The harness plays the other side of the call
+//! (caller or callee) with the spec's encodings and checks the glue obligations.
+use crate::exec::*;
+use crate::ir::*;
+use crate::*;
+use serde_json::{json, Value};
+use vcommon::model::{Ty, Val};
+use wit_bindgen_core::abi::{self, AbiVariant, LiftLower, WasmSignature, WasmType};
+
+fn erase(t: &WasmType, w: u64) -> &'static str {
+    let p = if w == 4 { "i32" } else { "i64" };
+    match t {
+        WasmType::I32 => "i32",
+        WasmType::I64 | WasmType::PointerOrI64 => "i64",
+        WasmType::F32 => "f32",
+        WasmType::F64 => "f64",
+        WasmType::Pointer | WasmType::Length => p,
+    }
+}
+
+fn sig_matches(sig_params: &[WasmType], sig_results: &[WasmType], exp: &Value, w: u64) -> Result<(), String> {
+    let ep: Vec<&str> = exp["params"].as_array().unwrap().iter().map(|x| x.as_str().unwrap()).collect();
+    let er: Vec<&str> = exp["results"].as_array().unwrap().iter().map(|x| x.as_str().unwrap()).collect();
+    let gp: Vec<&str> = sig_params.iter().map(|t| erase(t, w)).collect();
+    let gr: Vec<&str> = sig_results.iter().map(|t| erase(t, w)).collect();
+    if gp != ep || gr != er {
+        return Err(format!("core signature {gp:?} -> {gr:?}, the calling convention says {ep:?} -> {er:?}"));
+    }
+    Ok(())
+}
+
+struct Ctx<'v> {
+    v: &'v Value,
+    w: u64,
+    args: Vec<Val>,
+    res: Option<Val>,
+}
+
+impl<'v> Ctx<'v> {
+    fn arr(&self, k: &str) -> &'v [Value] {
+        self.v[k].as_array().unwrap()
+    }
+    fn b(&self, k: &str) -> bool {
+        self.v[k].as_bool().unwrap()
+    }
+    fn n(&self, k: &str) -> u64 {
+        self.v[k].as_u64().unwrap()
+    }
+}
+
+/// The callee of a lowered call (the harness acts as the core function being called).
+struct WasmCallee<'c, 'v> {
+    cx: &'c Ctx<'v>,
+    exp_sig: &'v Value,
+    owned: bool,
+    /// where indirect parameters must live: "retarea" (import) or "params" (export, malloc'd)
+    record_kind: &'static str,
+    /// retptr passed as last parameter (import) or returned (export)
+    retptr_is_param: bool,
+    calls: usize,
+    garbage: u8,
+}
+
+impl<'c, 'v> Callee for WasmCallee<'c, 'v> {
+    fn call_wasm(&mut self, mem: &mut Mem, _name: &str, sig: &WasmSignature, args: &[Rv]) -> Result<Vec<Rv>, String> {
+        self.calls += 1;
+        let cx = self.cx;
+        let w = cx.w;
+        sig_matches(&sig.params, &sig.results, self.exp_sig, w)?;
+        let indirect = cx.b("indirect");
+        let retptr = cx.b("retptr");
+        let mut seen = Vec::new();
+        let nparams = if indirect { 1 } else { cx.arr("paramsFlat").len() };
+        if indirect {
+            let exp = Expect { w, blocks: cx.arr("paramsMemBlocks") };
+            let p = match &args[0] {
+                Rv::Ptr(p) => *p,
+                o => return Err(format!("parameter record pointer is {o:?}")),
+            };
+            let (size, align) = (cx.n("paramsSize"), cx.n("paramsAlign"));
+            if p % align != 0 {
+                return Err(format!("parameter record at {p:#x} is not {align}-aligned"));
+            }
+            match mem.find(p) {
+                Some(a) if a.kind == self.record_kind && a.size >= size && a.align >= align && (self.record_kind != "params" || (a.size == size && a.align == align)) => {}
+                Some(a) => return Err(format!("parameter record lives in a {} block (size {}, align {}), expected {} (size {size}, align {align})", a.kind, a.size, a.align, self.record_kind)),
+                None => return Err("parameter record pointer is not an allocation".into()),
+            }
+            exp.check_cells(mem, p, &cells(&cx.v["paramsMem"]), self.owned, &mut seen)?;
+        } else {
+            let exp = Expect { w, blocks: cx.arr("paramsFlatBlocks") };
+            for (i, e) in cx.arr("paramsFlat").iter().enumerate() {
+                exp.check_flat(mem, &args[i], e, self.owned, &mut seen).map_err(|e| format!("argument slot {i}: {e}"))?;
+            }
+        }
+        // the result
+        if retptr {
+            let blocks = cx.arr("resMemBlocks");
+            let addrs = build_blocks(mem, w, blocks, self.garbage, "as-spec")?;
+            let root = cells(&cx.v["resMem"]);
+            if self.retptr_is_param {
+                if args.len() != nparams + 1 {
+                    return Err(format!("{} core arguments, expected parameters + return pointer", args.len()));
+                }
+                let p = match &args[nparams] {
+                    Rv::Ptr(p) => *p,
+                    o => return Err(format!("return pointer is {o:?}")),
+                };
+                let (size, align) = (cx.n("resSize"), cx.n("resAlign"));
+                match mem.find(p) {
+                    Some(a) if a.size >= size && p % align == 0 => {}
+                    _ => return Err(format!("return area at {p:#x} is not a block of >= {size} bytes aligned to {align}")),
+                }
+                fill_cells(mem, w, p, &root, &addrs, self.garbage)?;
+                Ok(vec![])
+            } else {
+                let p = mem.alloc_min_aligned(cx.n("resSize").max(1), cx.n("resAlign"), "callee-retarea");
+                fill_cells(mem, w, p, &root, &addrs, self.garbage)?;
+                Ok(vec![Rv::Ptr(p)])
+            }
+        } else {
+            if args.len() != nparams {
+                return Err(format!("{} core arguments, expected {nparams}", args.len()));
+            }
+            let blocks = cx.arr("resFlatBlocks");
+            let addrs = build_blocks(mem, w, blocks, self.garbage, "as-spec")?;
+            let a = |i: usize| addrs[i];
+            Ok(cx.arr("resFlat").iter().zip(&sig.results).map(|(e, t)| flat_to_rv(e, w, &a, self.garbage, Some(*t))).collect())
+        }
+    }
+    fn call_interface(&mut self, _: &[Val]) -> Result<Option<Val>, String> {
+        Err("CallInterface in a lowering glue".into())
+    }
+}
+
+/// The callee of a lifted call (the harness acts as the user's implementation).
+struct IfaceCallee<'c, 'v> {
+    cx: &'c Ctx<'v>,
+    calls: usize,
+}
+impl<'c, 'v> Callee for IfaceCallee<'c, 'v> {
+    fn call_wasm(&mut self, _: &mut Mem, _: &str, _: &WasmSignature, _: &[Rv]) -> Result<Vec<Rv>, String> {
+        Err("CallWasm in a lifting glue".into())
+    }
+    fn call_interface(&mut self, args: &[Val]) -> Result<Option<Val>, String> {
+        self.calls += 1;
+        if args != &self.cx.args[..] {
+            return Err(format!("implementation received {:?}", args));
+        }
+        Ok(self.cx.res.clone())
+    }
+}
+
+fn record(world: &World, func: &wit_parser::Function, variant: AbiVariant, ll: LiftLower, async_: bool) -> (Block, std::rc::Rc<wit_parser::SizeAlign>, usize) {
+    let mut rec = Recorder::new(&world.resolve, true);
+    abi::call(&world.resolve, variant, ll, func, &mut rec, async_);
+    let n = rec.next_var;
+    let sizes = std::rc::Rc::new(std::mem::take(&mut rec.sizes));
+    (rec.finish(), sizes, n)
+}
+
+/// glue that lowers arguments and lifts results (the guest calls an import / a host calls an export)
+fn lowering_combo(world: &World, func: &wit_parser::Function, cx: &Ctx, variant: AbiVariant, garbage: u8) -> Result<(), String> {
+    let (prog, sizes, n) = record(world, func, variant, LiftLower::LowerArgsLiftResults, false);
+    let mut m = Machine::new(sizes, cx.w, n);
+    m.args = cx.args.iter().cloned().map(Rv::W).collect();
+    let import = variant == AbiVariant::GuestImport;
+    let mut callee = WasmCallee {
+        cx,
+        exp_sig: if import { &cx.v["lowerSig"] } else { &cx.v["liftSig"] },
+        owned: !import,
+        record_kind: if import { "retarea" } else { "params" },
+        retptr_is_param: import,
+        calls: 0,
+        garbage,
+    };
+    m.run(&prog, &mut callee)?;
+    if callee.calls != 1 {
+        return Err(format!("{} core calls", callee.calls));
+    }
+    let ret = m.returned.clone().ok_or("glue did not return")?;
+    match (&cx.res, ret.as_slice()) {
+        (None, []) => {}
+        (Some(want), [Rv::W(got)]) if got == want => {}
+        (want, got) => return Err(format!("glue returned {got:?}, expected {want:?}")),
+    }
+    if import && m.events.iter().any(|e| matches!(e, Event::Malloc { .. } | Event::Dealloc { .. })) {
+        return Err("an import call allocated or freed guest memory through realloc".into());
+    }
+    Ok(())
+}
+
+/// glue that lifts arguments and lowers results (guest export wrapper / host import implementation)
+fn lifting_combo(world: &World, func: &wit_parser::Function, cx: &Ctx, variant: AbiVariant, async_: bool, garbage: u8) -> Result<Vec<String>, String> {
+    let mut notes = Vec::new();
+    let (prog, sizes, n) = record(world, func, variant, LiftLower::LiftArgsLowerResults, async_);
+    let w = cx.w;
+    let mut m = Machine::new(sizes, w, n);
+    let export = variant != AbiVariant::GuestImport;
+    let real_sig = world.resolve.wasm_signature(variant, func);
+    let exp_sig = if async_ { &cx.v["asyncLiftSig"] } else if export { &cx.v["liftSig"] } else { &cx.v["lowerSig"] };
+    if let Err(e) = sig_matches(&real_sig.params, &real_sig.results, exp_sig, w) {
+        return Err(format!("SPEC-OR-WIT-PARSER: {e}"));
+    }
+    let indirect = cx.b("indirect");
+    let retptr = cx.b("retptr") && !async_;
+    // the caller's side: arguments
+    let mut record_addr = None;
+    if indirect {
+        let addrs = build_blocks(&mut m.mem, w, cx.arr("paramsMemBlocks"), garbage, "as-spec")?;
+        let p = m.mem.alloc(cx.n("paramsSize"), cx.n("paramsAlign"), "params");
+        fill_cells(&mut m.mem, w, p, &cells(&cx.v["paramsMem"]), &addrs, garbage)?;
+        m.args.push(Rv::Ptr(p));
+        record_addr = Some(p);
+    } else {
+        let addrs = build_blocks(&mut m.mem, w, cx.arr("paramsFlatBlocks"), garbage, "as-spec")?;
+        let a = |i: usize| addrs[i];
+        for (e, t) in cx.arr("paramsFlat").iter().zip(&real_sig.params) {
+            m.args.push(flat_to_rv(e, w, &a, garbage, Some(*t)));
+        }
+    }
+    let mut res_area = None;
+    if retptr && !export {
+        let p = m.mem.alloc_min_aligned(cx.n("resSize").max(1), cx.n("resAlign"), "host-retarea");
+        m.args.push(Rv::Ptr(p));
+        res_area = Some(p);
+    }
+    let heap_before = m.mem.allocs.len();
+    let mut callee = IfaceCallee { cx, calls: 0 };
+    m.run(&prog, &mut callee)?;
+    if callee.calls != 1 {
+        return Err(format!("{} calls of the implementation", callee.calls));
+    }
+    // the parameter record: freed exactly once by an export wrapper, never by an import implementation
+    let frees: Vec<&Event> = m.events.iter().filter(|e| matches!(e, Event::Dealloc { what: "record", .. })).collect();
+    if export && indirect {
+        let (size, align) = (cx.n("paramsSize"), cx.n("paramsAlign"));
+        match frees.as_slice() {
+            [Event::Dealloc { addr, size: s, align: a, .. }] if Some(*addr) == record_addr && *s == size && *a == align => {}
+            [] => notes.push("PARAM-RECORD-NOT-FREED".to_string()),
+            other => return Err(format!("parameter record (size {size}, align {align}) freed as {other:?}")),
+        }
+    } else if !frees.is_empty() {
+        return Err(format!("unexpected deallocation {frees:?}"));
+    }
+    // results
+    let owned = !async_;
+    let mut seen = Vec::new();
+    if async_ {
+        let tr: Vec<&Event> = m.events.iter().filter(|e| matches!(e, Event::TaskReturn { .. })).collect();
+        let [Event::TaskReturn { name, params, args }] = tr.as_slice() else {
+            return Err(format!("{} task.return calls", tr.len()));
+        };
+        if name != &format!("[task-return]{}", func.name) {
+            return Err(format!("task.return import named {name}"));
+        }
+        let want: Vec<&str> = cx.arr("taskReturn").iter().map(|x| x.as_str().unwrap()).collect();
+        let got: Vec<&str> = params.iter().map(|t| erase(t, w)).collect();
+        if want != got {
+            return Err(format!("task.return core parameters {got:?}, the calling convention says {want:?}"));
+        }
+        if cx.n("nres") > 16 {
+            let exp = Expect { w, blocks: cx.arr("resMemBlocks") };
+            let p = match &args[0] {
+                Rv::Ptr(p) => *p,
+                o => return Err(format!("task.return pointer argument is {o:?}")),
+            };
+            exp.check_cells(&m.mem, p, &cells(&cx.v["resMem"]), false, &mut seen)?;
+        } else {
+            let exp = Expect { w, blocks: cx.arr("resFlatBlocks") };
+            for (i, e) in cx.arr("resFlat").iter().enumerate() {
+                exp.check_flat(&m.mem, &args[i], e, false, &mut seen).map_err(|e| format!("task.return slot {i}: {e}"))?;
+            }
+        }
+        if m.returned.is_some() {
+            notes.push("RETURN-AFTER-TASK-RETURN".to_string());
+        }
+    } else if retptr {
+        let exp = Expect { w, blocks: cx.arr("resMemBlocks") };
+        let p = if export {
+            match m.returned.as_deref() {
+                Some([Rv::Ptr(p)]) => *p,
+                o => return Err(format!("export wrapper returned {o:?}, expected a pointer to the return area")),
+            }
+        } else {
+            match m.returned.as_deref() {
+                Some([]) => res_area.unwrap(),
+                o => return Err(format!("import implementation returned {o:?}, expected nothing")),
+            }
+        };
+        if p % cx.n("resAlign") != 0 {
+            return Err("return area misaligned".into());
+        }
+        exp.check_cells(&m.mem, p, &cells(&cx.v["resMem"]), owned, &mut seen)?;
+    } else {
+        let exp = Expect { w, blocks: cx.arr("resFlatBlocks") };
+        let ret = m.returned.clone().ok_or("glue did not return")?;
+        let flat = cx.arr("resFlat");
+        if ret.len() != flat.len() {
+            return Err(format!("{} values returned, expected {}", ret.len(), flat.len()));
+        }
+        for (i, e) in flat.iter().enumerate() {
+            exp.check_flat(&m.mem, &ret[i], e, owned, &mut seen).map_err(|e| format!("result slot {i}: {e}"))?;
+        }
+    }
+    let _ = heap_before;
+    Ok(notes)
+}
+
+pub fn replay(vecs: &str, out: &str) -> anyhow::Result<()> {
+    let vecs = read_ndjson(vecs)?;
+    let mut w = NdjsonWriter::create(out)?;
+    silence_panics();
+    let mut runs = 0usize;
+    for v in &vecs {
+        let ps: Vec<Ty> = v["ps"].as_array().unwrap().iter().map(Ty::from_json).collect();
+        let r: Option<Ty> = if v["r"]["k"] == "none" { None } else { Some(Ty::from_json(&v["r"])) };
+        let mut types = ps.clone();
+        if let Some(r) = &r {
+            types.push(r.clone());
+        }
+        let params: Vec<usize> = (0..ps.len()).collect();
+        let result = r.as_ref().map(|_| ps.len());
+        let world = match build_world(&types, &[("f".to_string(), params, result)], false) {
+            Ok(w) => w,
+            Err(e) => {
+                w.write(&json!({"skipped": format!("{e:#}"), "fi": v["fi"]}))?;
+                continue;
+            }
+        };
+        let func = world.func("f");
+        let cx = Ctx {
+            v,
+            w: v["W"].as_u64().unwrap(),
+            args: ps.iter().zip(v["args"].as_array().unwrap()).map(|(t, x)| Val::from_json(t, x)).collect(),
+            res: r.as_ref().map(|t| Val::from_json(t, &v["res"])),
+        };
+        let has_borrow_result = false;
+        let _ = has_borrow_result;
+        let combos: [(&str, AbiVariant, bool, bool); 5] = [
+            ("import-lower", AbiVariant::GuestImport, true, false),
+            ("export-lift", AbiVariant::GuestExport, false, false),
+            ("async-export-lift", AbiVariant::GuestExportAsync, false, true),
+            ("export-lower", AbiVariant::GuestExport, true, false),
+            ("import-lift", AbiVariant::GuestImport, false, false),
+        ];
+        for (name, variant, lowering, async_) in combos {
+            for garbage in [0u8, 0xA5] {
+                runs += 1;
+                let r = catch(std::panic::AssertUnwindSafe(|| {
+                    if lowering {
+                        lowering_combo(&world, &func, &cx, variant, garbage).map(|_| Vec::new())
+                    } else {
+                        lifting_combo(&world, &func, &cx, variant, async_, garbage)
+                    }
+                }));
+                let problem = match r {
+                    Err(p) => Some(json!({"panic": p})),
+                    Ok(Err(e)) => Some(json!({"error": e})),
+                    Ok(Ok(notes)) if !notes.is_empty() => Some(json!({"notes": notes})),
+                    Ok(Ok(_)) => None,
+                };
+                if let Some(p) = problem {
+                    w.write(&json!({"fi": v["fi"], "W": v["W"], "sh": v["sh"], "combo": name, "garbage": garbage,
+                                    "nflat": v["nflat"], "nres": v["nres"], "ps": v["ps"], "r": v["r"], "problem": p}))?;
+                }
+            }
+        }
+    }
+    w.write(&json!({"done": vecs.len(), "runs": runs}))?;
+    w.finish()
+}
